@@ -59,13 +59,25 @@ def process_state_rules(repo, rep):
             continue
         for f in m.all_functions():
             guarded = set()
+            unsafe = set()
             for w_ in ast.walk(f.node):
                 if isinstance(w_, ast.With) and any('catch_warnings' in stmt_text(it.context_expr) or 'errstate' in stmt_text(it.context_expr) or 'localcontext' in stmt_text(it.context_expr)
                                                     for it in w_.items):
                     guarded.update(id(x) for x in ast.walk(w_))
+                    if any('catch_warnings' in stmt_text(it.context_expr) for it in w_.items):
+                        # numpy.errstate and decimal.localcontext are per thread; warnings.catch_warnings saves and restores the ONE filter list
+                        # of the process (the library reference: "not thread-safe")
+                        unsafe.update(id(x) for x in ast.walk(w_))
             for c in ast.walk(f.node):
                 if isinstance(c, ast.Call):
                     txt = stmt_text(c.func)
+                    if txt in PROCESS_WIDE and id(c) in unsafe and txt.startswith('warnings.'):
+                        n += 1
+                        rep.violated('R-PURE', 'R-PURE::%s::%s::process-wide::%s::restored-per-process' % (m.relpath, f.qualname, txt), where(f, c), '%s changes the warning filters inside '
+                                     '`with warnings.catch_warnings()`: the block saves and restores the single filter list of the PROCESS and is not thread-safe - with two threads inside it '
+                                     '(A in, B in, A out, B out) B restores the list A had changed and the rule `%s` stays for the rest of the process (the property quantifies over calls '
+                                     'running concurrently in other threads)' % (f.qualname, stmt_text(c)[:50]), expected='warnings.warn(...) under the caller\'s filters, no filter change',
+                                     actual=stmt_text(c)[:80])
                     if txt in PROCESS_WIDE and id(c) not in guarded:
                         n += 1
                         rep.violated('R-PURE', 'R-PURE::%s::%s::process-wide::%s' % (m.relpath, f.qualname, txt), where(f, c), '%s calls `%s`, which sets %s for the whole process and '
